@@ -386,6 +386,8 @@ static inline uring_index uring_fifo_pop(struct uring *uring,
             }
 
             for ( ; ; ) {
+                /* tag and index of the head we found the predecessor of */
+                uring_fifo_val head_fifo = old_fifo & UINT16_MAX;
                 uring_fifo_set_head(uring, &new_fifo, prev);
                 if (likely(uatomic_compare_exchange(fifo_p, &old_fifo,
                                                     new_fifo)))
@@ -393,8 +395,11 @@ static inline uring_index uring_fifo_pop(struct uring *uring,
 
                 new_fifo = old_fifo;
                 /* Check if only the tail was changed (and then try again),
-                 * or if we need to restart everything. */
-                if (unlikely(head != uring_fifo_get_head(uring, old_fifo)))
+                 * or if we need to restart everything. The tag of the head
+                 * must be compared too: if the head element was popped and
+                 * pushed again meanwhile, prev is no longer its
+                 * predecessor. */
+                if (unlikely(head_fifo != (old_fifo & UINT16_MAX)))
                     break;
             }
         }
